@@ -1,4 +1,4 @@
-SPECIFICATION Spec
+SPECIFICATION SpecFb
 CONSTANTS
   MaxSteps = 9
   MaxCycles = 5
@@ -8,7 +8,7 @@ CONSTANTS
   EnableDebugWrites = FALSE
   SrcVals = {0}
   Dts = {1, 2, 3, 5}
-  CfgSel = "base"
+  CfgSel = "fb1"
 VIEW View
 CHECK_DEADLOCK FALSE
 INVARIANTS
